@@ -90,6 +90,7 @@ KEEP_ENV = ("HWLOC_HIDE_ERRORS", "HWLOC_LIBXML", "HWLOC_DONT_ADD_VERSION_INFO")
 
 def _env(seed, libxml, extra=None):
     e = dict(os.environ, ASAN_OPTIONS="detect_leaks=1:abort_on_error=0:allocator_may_return_null=1",
+             MSAN_OPTIONS="halt_on_error=1:exit_code=86:allocator_may_return_null=1",
              UBSAN_OPTIONS="print_stacktrace=1", VERIF_SEED=str(seed), HWLOC_HIDE_ERRORS="2", HWLOC_LIBXML=str(libxml),
              LC_ALL="C", HWLOC_DONT_ADD_VERSION_INFO="1")
     for k in list(e):
@@ -128,6 +129,9 @@ def classify(rc, out):
     m = re.search(r"ERROR: AddressSanitizer: (\S+)", out)
     if m:
         return "asan:" + m.group(1) + where
+    m = re.search(r"WARNING: MemorySanitizer: (\S+)", out)
+    if m:
+        return "msan:" + m.group(1) + where
     m = re.search(r"runtime error: (.*)", out)
     if m:
         return "ubsan:" + re.sub(r"0x[0-9a-f]+|\d+", "N", m.group(1))[:50] + where
@@ -218,10 +222,11 @@ def describe(libxml, mode, flags, u, data, report, what, size=None, env=None):
                 "\n".join("# " + l for l in report.splitlines()[:25])))
 
 
-def one_run(binp, workdir, idx, seed, n, sources):
-    d = os.path.join(workdir, "r%d" % idx)
+def one_run(binp, workdir, idx, seed, n, sources, libxml=None, tag="r"):
+    d = os.path.join(workdir, "%s%d" % (tag, idx))
     os.makedirs(d, exist_ok=True)
-    libxml = idx % 2
+    if libxml is None:
+        libxml = idx % 2
     r = run([binp, "gen", str(n), sources, d], env=_env(seed, libxml), errors="replace")
     plan = read_lines(os.path.join(d, "plan.txt")) if os.path.exists(os.path.join(d, "plan.txt")) else []
     res = {"seed": seed, "rc": r.returncode, "out": r.stdout[-12000:], "libxml": libxml, "plan": plan, "verdicts": {},
@@ -418,6 +423,51 @@ def run_engine(tier, seed, sizes=None):
                                  "replay": "# HWLOC_LIBXML=%d VERIF_SEED=%d xmlload gen %d\n# %s\n" % (r["libxml"], r["seed"], n, r["out"][-3000:].replace("\n", "\n# "))})
     for lx in (0, 1):
         stats["distdrop.patterns_le5_covered_of_62.%s" % ("libxml" if lx else "nolibxml")] = len(dd_patterns[lx])
+
+    # 3. MemorySanitizer pass (support, not a proof obligation): "use of uninitialised memory" is named by the property and is
+    #    invisible to ASan.  Same harness, library and harness compiled by clang with -fsanitize=memory, built-in (nolibxml) back end
+    #    only (libxml2 is not instrumented: its reads of its own buffers would be reported).  Corpus first, then generated cases.
+    if have_compiler("msan"):
+        mbin = build_harness("xmlload", variant="msan")
+        for f, name, mode, u in corpus_cases():
+            data = open(f, "rb").read()
+            kind, out, v, status = replay_bytes(mbin, workdir, data, 0, mode, 1 << 16, u, "mcorpus")
+            stats["msan.corpus"] = stats.get("msan.corpus", 0) + 1
+            if kind and kind.startswith("msan:"):
+                add_problem("corpus input %s under MemorySanitizer: %s" % (os.path.basename(f), kind), 0, 0, mode, 1 << 16, u, data, kind, out)
+        mruns, mn = (6, 400) if tier == "quick" else (16, 2500)
+        mseeds = [int(seed) * 1000003 + 500 + i for i in range(mruns)]
+        with ThreadPoolExecutor(min(NCPU, 8)) as ex:
+            mres = list(ex.map(lambda a: one_run(mbin, workdir, a[0], a[1], mn, sources, libxml=0, tag="m"), enumerate(mseeds)))
+        for r in mres:
+            ncase = sum(1 for l in r["plan"] if l and not l.startswith("#"))
+            stats["msan.cases"] = stats.get("msan.cases", 0) + ncase
+            if r["kind"] and r["kind"].startswith("msan:"):
+                # minimisation / replay must use the MSan binary: done here, not through add_problem (which replays with the ASan one)
+                if r["kind"] not in seen_kinds and len(problems) < 6:
+                    seen_kinds.add(r["kind"])
+                    if r["culprit"]:
+                        t, data = r["culprit"]
+                        want = r["kind"]
+                        def fails(b, t=t, want=want):
+                            k, _, _, _ = replay_bytes(mbin, workdir, b, 0, t[1], int(t[2]), t[3] == "1", "mmin")
+                            return k == want
+                        small = data
+                        if fails(data):
+                            lines = data.splitlines(keepends=True)
+                            if len(lines) > 1:
+                                small = b"".join(ddmin(lines, lambda ls: fails(b"".join(ls)), max_tests=200))
+                        k, out, _, _ = replay_bytes(mbin, workdir, small, 0, t[1], int(t[2]), t[3] == "1", "mmin")
+                        problems.append({"what": "MemorySanitizer: " + r["kind"], "seed": r["seed"],
+                                         "replay": describe(0, t[1], t[2], t[3] == "1", small, out if k else r["out"], "MemorySanitizer build (clang -fsanitize=memory, .build/bin/xmlload.msan-*): " + r["kind"])})
+                    else:
+                        problems.append({"what": "MemorySanitizer outside a case: " + r["kind"], "seed": r["seed"],
+                                         "replay": "# HWLOC_LIBXML=0 VERIF_SEED=%d xmlload.msan gen %d\n# %s\n" % (r["seed"], mn, r["out"][-3000:].replace("\n", "\n# "))})
+            elif r["kind"]:
+                # any other failure kind of the MSan process (leak checks are stubbed there) is judged by the ASan pass, only counted here
+                stats["msan.other-failure"] = stats.get("msan.other-failure", 0) + 1
+    else:
+        stats["msan.unavailable"] = 1
     shutil.rmtree(workdir, ignore_errors=True)
     ev = sum(v for k, v in stats.items() if k in ("loaded", "failed", "crashed"))
     return {"evaluations": ev + stats["corpus"], "distinct_nontrivial": len(distinct), "distribution": stats, "sources": nsrc,
